@@ -143,6 +143,8 @@ Definition touch (o a : nat) (newv : value) : M unit :=
 Definition reverse_add (re ra : nat) (objs : list oid) (item : oid) : M unit :=
   tick_radd flt ;;;
   s <- get ;;
+  (* for obj in objects: if obj._status_ in del_statuses: throw_object_was_deleted(obj)   -- before any mutation *)
+  if existsb (fun ob => is_del (g_status s ob)) objs then fail EDeleted else
   if existsb (fun ob => g_bool s (LItem ob ra item) || g_bool s (LAdded ob ra item)) objs
   then add_taint TInconsistent ;;; fail EAssert
   else
@@ -567,7 +569,8 @@ Definition commit_attr (s : state) (done : list (nat * nat)) (ea : nat * nat) : 
   let reset ob s' := apply_writes (set_writes (LAdded ob a) n [] ++ set_writes (LRemoved ob a) n []) s' in
   match a_kind rt with
   | KSet =>
-      if existsb (fun d => Nat.eqb (fst d) (a_target at_) && Nat.eqb (snd d) (a_reverse at_)) done then (s, done)
+      if existsb (fun d => Nat.eqb (fst d) (a_target at_) && Nat.eqb (snd d) (a_reverse at_)) done
+      then (fold_left (fun s' ob => reset ob s') objs s, done)      (* the skipped reverse side: added / removed are reset as well *)
       else (fold_left (fun s' ob => if status_eqb (g_status s' ob) SMarked
                                     then apply_writes (set_writes (LItem ob a) n []) (reset ob s')
                                     else reset ob s') objs s, (e, a) :: done)
